@@ -6,11 +6,13 @@ use crate::gen::{self, Swarm};
 use crate::rng::{Fnv, Rng};
 use crate::sim::*;
 use crate::trace::*;
-use crate::views::snapshot_digest;
+use crate::views::{snapshot, snapshot_digest, Snapshot};
 use std::collections::BTreeMap;
 
 #[derive(Clone, Debug, Default)]
 pub struct RunOutcome {
+    /// open known findings hit during the run: id -> first example
+    pub known_hits: BTreeMap<String, (String, String)>,
     pub config: Option<RunConfig>,
     pub events: Vec<Event>,
     pub violation: Option<Violation>,
@@ -54,13 +56,18 @@ pub struct Driver {
     pub events: Vec<Event>,
     pub index: usize,
     // C08
-    s0: Option<u64>,
-    last_idle_digest: Option<u64>,
+    s0: Option<Snapshot>,
+    last_idle_digest: Option<Snapshot>,
     ingest_started_at: Option<usize>,
+    ingesting_hash: Option<crate::model::Hash32>,
     ingest_disturbed: bool,
     twin_checks: u32,
     upgrades_seen: u32,
     fp: Fnv,
+    known: Vec<crate::known::KnownFinding>,
+    pub known_hits: BTreeMap<String, (String, String)>,
+    /// set when a known finding left the canister in a state from which the run cannot go on
+    pub stopped: bool,
 }
 
 impl Driver {
@@ -75,10 +82,14 @@ impl Driver {
             s0: None,
             last_idle_digest: None,
             ingest_started_at: None,
+            ingesting_hash: None,
             ingest_disturbed: false,
             twin_checks: 0,
             upgrades_seen: 0,
             fp: Fnv::default(),
+            known: crate::known::load_known_findings(),
+            known_hits: BTreeMap::new(),
+            stopped: false,
         })
     }
 
@@ -91,8 +102,35 @@ impl Driver {
         v
     }
 
-    /// Applies one event and runs every per-event oracle. Returns Ok(applied).
+    /// Applies one event; violations that are open known findings are recorded, not returned.
     pub fn step(&mut self, ev: &Event) -> Result<bool, Violation> {
+        if self.stopped {
+            self.events.push(ev.clone());
+            self.index += 1;
+            return Ok(false);
+        }
+        match self.step_inner(ev) {
+            Err(v) => {
+                if let Some(k) = crate::known::matches_known(&v, &self.known) {
+                    self.known_hits.entry(k.id.clone()).or_insert((k.title.clone(), v.detail.clone()));
+                    // a trap leaves no consistent state to continue from
+                    if v.kind.contains("trap") {
+                        self.stopped = true;
+                    }
+                    Ok(true)
+                } else {
+                    Err(v)
+                }
+            }
+            ok => ok,
+        }
+    }
+
+    fn known_kind(&self, property: &str, kind: &str) -> bool {
+        self.known.iter().any(|k| k.status == "open" && k.property == property && k.kind == kind)
+    }
+
+    fn step_inner(&mut self, ev: &Event) -> Result<bool, Violation> {
         self.w.event_index = self.index;
         let at = self.index;
         self.events.push(ev.clone());
@@ -120,11 +158,27 @@ impl Driver {
                 let (d2, fees2) = self.upgrade_snapshot().map_err(|t| fix(violation("C09", "snapshot-trap", t.0)))?;
                 self.w.stats.oracle_comparisons += 1;
                 if arg.is_none() && d != d2 {
+                    let diff = d.diff(&d2, &["utxos_length"]);
+                    if diff.is_empty() {
+                        let before = d.diff(&d2, &[]);
+                        let v = fix(violation(
+                            "C09",
+                            "utxos-length-changed-by-upgrade",
+                            format!("every read answer is unchanged by the upgrade except get_blockchain_info().utxos_length ({})", before.join("; ")),
+                        ));
+                        match crate::known::matches_known(&v, &self.known) {
+                            Some(k) => {
+                                self.known_hits.entry(k.id.clone()).or_insert((k.title.clone(), v.detail.clone()));
+                            }
+                            None => return Err(v),
+                        }
+                    } else {
                     return Err(fix(violation(
                         "C09",
                         "answers-changed-by-upgrade",
-                        format!("read-API digest before the upgrade {d:016x}, after {d2:016x} (see detail run with --explain)"),
+                        format!("{} read answers changed across the upgrade, e.g. {}", diff.len(), diff.iter().take(3).cloned().collect::<Vec<_>>().join("; ")),
                     )));
+                    }
                 }
                 if fees != fees2 && arg.is_none() {
                     return Err(fix(violation("C09", "fee-percentiles-changed-by-upgrade", format!("before {:?} after {:?}", fees.first(), fees2.first()))));
@@ -151,8 +205,8 @@ impl Driver {
         Ok(true)
     }
 
-    fn upgrade_snapshot(&mut self) -> Result<(u64, Vec<u64>), canister::Trap> {
-        let d = snapshot_digest(&mut self.w, true)?;
+    fn upgrade_snapshot(&mut self) -> Result<(Snapshot, Vec<u64>), canister::Trap> {
+        let d = snapshot(&mut self.w)?;
         let fees = if self.w.data_gate_open() {
             canister::get_fee_percentiles(self.w.network)?
         } else {
@@ -196,20 +250,24 @@ impl Driver {
         let ingesting = o.ingesting.is_some();
         let disturbing = matches!(ev, Event::SetConfig(_) | Event::Upgrade { .. } | Event::Client(_) | Event::Deliver { .. });
         if ingesting {
-            let d = snapshot_digest(&mut self.w, true).map_err(|t| violation("C08", "snapshot-trap", format!("a read endpoint trapped while ingestion is paused: {}", t.0)))?;
+            let d = snapshot(&mut self.w).map_err(|t| violation("C08", "snapshot-trap", format!("a read endpoint trapped while ingestion is paused: {}", t.0)))?;
             self.w.stats.oracle_comparisons += 1;
-            if !was_ingesting {
+            // a different block than at the previous check point: its ingestion began in this message
+            let same_block = was_ingesting && self.ingesting_hash == o.ingesting;
+            self.ingesting_hash = o.ingesting;
+            if !same_block && was_ingesting {
+                // the previous block finished and this one began within one heartbeat: there is
+                // no observable "before" state; later pauses are compared with this one
+                self.ingest_started_at = None;
+                self.s0 = Some(d);
+            } else if !was_ingesting {
                 // ingestion began in this message
                 self.ingest_started_at = Some(self.index - 1);
                 self.ingest_disturbed = false;
                 if o.stable_height == stable_before {
-                    if let Some(prev) = self.last_idle_digest {
-                        if prev != d {
-                            return Err(violation(
-                                "C08",
-                                "answer-changed-at-pause",
-                                format!("read-API digest before ingestion began {prev:016x}, at the first pause {d:016x}"),
-                            ));
+                    if let Some(prev) = &self.last_idle_digest {
+                        if *prev != d {
+                            return Err(pause_violation(prev, &d, "before ingestion began", "at the first pause"));
                         }
                     }
                 }
@@ -217,13 +275,9 @@ impl Driver {
             } else if disturbing {
                 self.s0 = Some(d);
                 self.ingest_disturbed = true;
-            } else if let Some(s0) = self.s0 {
-                if s0 != d {
-                    return Err(violation(
-                        "C08",
-                        "answer-changed-at-pause",
-                        format!("read-API digest {s0:016x} at an earlier pause of this block, {d:016x} now"),
-                    ));
+            } else if let Some(s0) = &self.s0 {
+                if *s0 != d {
+                    return Err(pause_violation(s0, &d, "at an earlier pause of this block", "now"));
                 }
             }
             // (c) finiteness: with >= 1 operation per round a block with n slice checks needs <= n + 1 rounds
@@ -244,10 +298,11 @@ impl Driver {
                 ));
             }
         } else {
+            self.ingesting_hash = None;
             if was_ingesting || (o.stable_height > stable_before && self.ingest_started_at.is_some()) {
                 // ingestion finished: compare with an unsliced twin
                 if let (Some(start), false) = (self.ingest_started_at, self.ingest_disturbed) {
-                    if self.twin_checks < 3 && !disturbing {
+                    if self.twin_checks < 3 && matches!(ev, Event::Heartbeat { .. }) {
                         self.twin_checks += 1;
                         self.twin_compare(start)?;
                     }
@@ -256,7 +311,7 @@ impl Driver {
                 self.s0 = None;
             }
             if matches!(ev, Event::Heartbeat { .. } | Event::Deliver { .. } | Event::SetConfig(_) | Event::Upgrade { .. } | Event::Quiesce) || self.last_idle_digest.is_none() {
-                self.last_idle_digest = Some(snapshot_digest(&mut self.w, true).map_err(|t| violation("C08", "snapshot-trap", t.0))?);
+                self.last_idle_digest = Some(snapshot(&mut self.w).map_err(|t| violation("C08", "snapshot-trap", t.0))?);
             }
         }
         Ok(())
@@ -320,8 +375,25 @@ impl Driver {
         out.events = std::mem::take(&mut self.events);
         out.applied_events = self.index;
         out.desynced = self.w.desynced;
+        out.known_hits = std::mem::take(&mut self.known_hits);
         out
     }
+}
+
+fn pause_violation(a: &Snapshot, b: &Snapshot, wa: &str, wb: &str) -> Violation {
+    let diff = a.diff(b, &["utxos_length"]);
+    if diff.is_empty() {
+        return violation(
+            "C08",
+            "utxos-length-changed-at-pause",
+            format!("every read answer equals the one {wa} except get_blockchain_info().utxos_length ({} {wb})", a.diff(b, &[]).join("; ")),
+        );
+    }
+    violation(
+        "C08",
+        "answer-changed-at-pause",
+        format!("{} read answers differ between {wa} and {wb}, e.g. {}", diff.len(), diff.iter().take(3).cloned().collect::<Vec<_>>().join("; ")),
+    )
 }
 
 /// Read-API digest plus bookkeeping, as (digest, short description).
